@@ -28,20 +28,50 @@ def models_transitions(chk, prefix="C07"):
         "suspend": ([], lambda b, a, args, k: z3.And(z3.BoolVal(k == "val"), a["_status"].t == C["SUSPENDED"], is_none(a["_suspend_until"]))),
         "suspend_with_timeout": ([("real", "ts")], lambda b, a, args, k: z3.And(z3.BoolVal(k == "val"), a["_status"].t == C["SUSPENDED_WITH_TIMEOUT"], ops.values_equal(None, a["_suspend_until"], args[0]))),
         "complete": ([("any", "res")], lambda b, a, args, k: z3.And(z3.BoolVal(k == "val"), a["_status"].t == C["COMPLETED"], ops.values_equal(None, a["_result"], args[0]), ops.truth(None, a["_is_result_set"]))),
-        "fail": ([("any", "e")], lambda b, a, args, k: z3.And(z3.BoolVal(k == "val"), a["_status"].t == C["FAILED"], ops.values_equal(None, a["_error"], args[0]))),
+        "fail": ([("exc", "e")], lambda b, a, args, k: z3.And(z3.BoolVal(k == "val"), a["_status"].t == C["FAILED"], ops.values_equal(None, a["_error"], args[0]))),
         "reset_to_pending": ([], lambda b, a, args, k: z3.And(z3.BoolVal(k == "val"), a["_status"].t == C["PENDING"], is_none(a["_future"]), is_none(a["_suspend_until"]))),
         "run": ([("any", "future")], lambda b, a, args, k: z3.If(b["_status"].t == C["PENDING"], z3.And(z3.BoolVal(k == "val"), a["_status"].t == C["RUNNING"], ops.values_equal(None, a["_future"], args[0])),
                                                                z3.And(z3.BoolVal(k == "raise"), a["_status"].t == b["_status"].t))),
     }
+    # Reader view: _create_result() / should_execution_suspend() / the timer thread read a branch's status FIRST and without a lock, and then
+    # the field that status promises.  RV must therefore hold after EVERY single store of a transition, not only at its end.
+    def reader_view(s_, o_):
+        f = s_.get(o_)
+        return z3.And(z3.Implies(f["_status"].t == C["COMPLETED"], ops.truth(None, f["_is_result_set"])),
+                      z3.Implies(f["_status"].t == C["FAILED"], z3.Not(is_none(f["_error"]))))
+
+    def replay_publish(m_):
+        def r(inputs):
+            from pyvc.check import native
+            r_ = native("branch_publish_replay.py", {"transition": m_})
+            return bool(r_.get("confirmed")), r_
+        return r
+
+    class RV(ExecHooks):
+        cur = None
+
+        def on_store(self, eng_, s_, ref, name, value):
+            if RV.cur is not None and ref.oid == RV.cur[1].oid:
+                m_ = RV.cur[0]
+                chk.prove(f"{prefix}.models.publish_order.{m_}", s_.pc, reader_view(s_, ref),
+                          desc=f"ExecutableWithState.{m_}: after every single store, status COMPLETED implies the result is set and status FAILED implies the error is stored (the status is published last): a thread that reads the status and then the result / error without a lock never finds it missing",
+                          describe=lambda mdl: {"schedule": f"another branch's completion decides the batch while this branch is between the two stores of {m_}()"},
+                          replay=replay_publish(m_) if m_ in ("complete", "fail") else None, sample=f"{m_}: reader view after each store")
+    eng.hooks = RV()
     for m, (argspec, post) in specs.items():
         st = St()
         o = fresh_obj(st)
+        st.assume(reader_view(st, o))  # RV is an invariant: assumed on entry
+        if m == "fail":
+            pass
+        RV.cur = (m, o)
         before = dict(st.get(o))
-        args = [fresh(kind, nm) for kind, nm in argspec]
+        args = [eng.new_symexc(st, nm) if kind == "exc" else fresh(kind, nm) for kind, nm in argspec]   # fail(error: Exception): the argument is an exception object
         chk.function(f"concurrency.models.ExecutableWithState.{m}")
         for k, v, s in eng.run(cls.find_method(m), [o] + args, st=st):
             chk.paths += 1
             chk.prove(f"{prefix}.models.transitions.{m}", s.pc, post(before, s.get(o), args, k), desc=f"ExecutableWithState.{m}: status / future / wake-up time / result / error are set exactly as the transition says (run only from PENDING)")
+    RV.cur = None
     # can_resume
     st = St()
     o = fresh_obj(st)
